@@ -214,40 +214,35 @@ def cover_check(ex, pc):
     return str(r)
 
 
-def discharge_all(ex, obls, timeout_ms=10000, seed=0, budget_s=150.0, max_retry=3):
-    """first a quick pass (2 s per obligation, no refutation search), then the failures again with the
-    full timeout and the ground-mode refutation - but only the first few: one failure decides the check"""
-    t0 = time.time()
+def discharge_all(ex, obls, timeout_ms=10000, seed=0, budget_s=None, max_confirmed=3):
+    """first a quick pass (2 s per obligation, no refutation search); then EVERY obligation that is still open is tried
+    again with the full timeout and further seeds (a timeout is never taken for a refutation: nonlinear goals are
+    sensitive to the seed).  Retrying stops only once `max_confirmed` obligations have failed for good: then the check
+    has failed anyway and the remaining open obligations are reported as not retried."""
     quick = min(2000, timeout_ms)
     pending = []
     for o in obls:
         discharge(ex, o, quick, seed, want_model=False, ground=False)
         if o.status != 'proved':
             pending.append(o)
-    retried = 0
-    second_tries = 0
-    seen_names = set()
+    confirmed = 0
+    attempts = [(max(timeout_ms // 2, quick), seed + 1, True), (timeout_ms, seed + 17, True), (timeout_ms, seed + 101, False),
+                (timeout_ms * 2, seed + 977, False)]
     for o in pending:
-        if time.time() - t0 > budget_s:
-            o.note = (o.note or '') + ' (time budget of the check exhausted before the retry)'
+        if confirmed >= max_confirmed:
+            o.note = (o.note or '') + ' (not retried: the check had already failed on %d other obligations)' % confirmed
             continue
-        if o.name in seen_names and retried >= max_retry:
-            continue
-        if retried >= max_retry * 2:
-            continue
-        seen_names.add(o.name)
-        retried += 1
-        o.status = None
-        spent = o.time
-        discharge(ex, o, timeout_ms, seed, want_model=True, ground=True)
-        o.time += spent
-        if o.status == 'unknown' and time.time() - t0 < budget_s and second_tries < 2:
-            second_tries += 1
-            # a timeout is not a refutation: one more attempt with another seed and twice the time
+        for (tmo, sd, ground) in attempts:
             spent = o.time
             o.status = None
-            discharge(ex, o, timeout_ms * 2, seed + 17, want_model=True, ground=False)
+            discharge(ex, o, tmo, sd, want_model=True, ground=ground)
             o.time += spent
+            if o.status == 'proved':
+                break
+            if o.status == 'failed' and 'candidate from the quantifier-free part' not in (o.note or ''):
+                break   # a genuine model of the negation
+        if o.status != 'proved':
+            confirmed += 1
     return pending
 
 
